@@ -11,6 +11,7 @@ import numpy as np
 
 from .. import par
 from .. import spectral as S
+from .. import exactfam as E
 from ..qlib import lib, q_from_float, q_to_float, omul, oherm, oeye, ofro, oadj, units, EPS
 
 
@@ -119,6 +120,10 @@ def _class_job(args):
     return rec.events, rec.info
 
 
+def seed_i(rng):
+    return int(rng.integers(0, 1000))
+
+
 def _structure_job(args):
     seed, thorough = args
     rng = np.random.default_rng(seed)
@@ -182,6 +187,13 @@ def _structure_job(args):
             G = rng.standard_normal((n, n, 4)) * 10.0 ** rng.integers(-8, 9)
             Hh = G + oherm(G)
             herm_measure(rec, "random-hermitian", {"structure": "gaussian hermitian", "A": Hh.tolist()}, Hh, spec(Hh))
+    # graded spectra (cond 2^10 .. 2^40, mixed signs), exactly representable: A = U diag(lam) U^H with exactly unitary U
+    for n in (2, 3, 4, 5):
+        for ce in (10, 20, 30, 40):
+            lam = [(-1) ** i * 2.0 ** (3 - (ce * i) // (n - 1)) for i in range(n)]
+            un, U = E.ulib(n)[(seed_i(rng) + ce) % len(E.ulib(n))]
+            A = E.herm_from_spectrum(U, lam)
+            herm_measure(rec, "graded-spectrum", {"lambda": lam, "U": un, "cond": "2^%d" % ce}, A, lam)
     # guards
     for n in (2, 3, 4):
         G = rng.standard_normal((n, n, 4))
